@@ -143,16 +143,18 @@ def _ema_time_weighted(arr: np.ndarray, times: np.ndarray, halflife: int) -> np.
     NaN values propagate the last valid EMA value forward.
     """
     out = np.zeros_like(arr, dtype="float64")
-    residual = out[0] = arr[0]
-    residual_weights = 1
-    for i, x in enumerate(arr[1:], 1):
-        hl = (times[i] - times[i - 1]) / halflife
-        beta = np.exp(-np.log(2) * hl)
-        residual *= beta
-        residual_weights *= beta
+    # start from an empty state so that leading NaNs do not poison the residuals
+    residual = 0.0
+    residual_weights = 0.0
+    for i, x in enumerate(arr):
+        if i > 0:
+            hl = (times[i] - times[i - 1]) / halflife
+            beta = np.exp(-np.log(2) * hl)
+            residual *= beta
+            residual_weights *= beta
 
         if np.isnan(x):
-            out[i] = out[i - 1]
+            out[i] = out[i - 1] if i > 0 else np.nan
         else:
             out[i] = (x + residual) / (1 + residual_weights)
             residual_weights += 1
